@@ -78,6 +78,8 @@ func (m *C03) OnStep(_ explore.Ghost, st *explore.Step) []V {
 	// escrow decreases allowed by fills of this BuyDirect
 	allowed := map[abKey]*big.Rat{}
 	sellerDenom := map[string]map[string]bool{}
+	duePay := map[string]map[string]*big.Rat{} // seller -> ask denom -> exact payment owed
+	dueFills := map[string]map[string]int64{}
 	if bd, ok := st.Res.Msg.(*markettypes.MsgBuyDirect); ok && st.Act.Kind == explore.ActMsg {
 		// quantities may refer to the same order several times
 		for _, o := range bd.Orders {
@@ -93,8 +95,24 @@ func (m *C03) OnStep(_ explore.Ghost, st *explore.Step) []V {
 			if mk := st.Pre.Market(so.MarketId); mk != nil {
 				if sellerDenom[k.addr] == nil {
 					sellerDenom[k.addr] = map[string]bool{}
+					duePay[k.addr] = map[string]*big.Rat{}
+					dueFills[k.addr] = map[string]int64{}
 				}
 				sellerDenom[k.addr][mk.BankDenom] = true
+				// exact payment owed in the order's ask denomination: quantity x ask x (1 - seller fee rate)
+				ask, _ := new(big.Int).SetString(so.AskAmount, 10)
+				if ask != nil {
+					rs := ref.Zero()
+					if st.Pre.FeeParams != nil && st.Pre.FeeParams.SellerPercentageFee != "" {
+						rs = rat(st.Pre.FeeParams.SellerPercentageFee)
+					}
+					pay := ref.Mul(ref.Mul(rat(o.Quantity), ref.RatOfInt(ask)), ref.Sub(new(big.Rat).SetInt64(1), rs))
+					if duePay[k.addr][mk.BankDenom] == nil {
+						duePay[k.addr][mk.BankDenom] = ref.Zero()
+					}
+					duePay[k.addr][mk.BankDenom] = ref.Add(duePay[k.addr][mk.BankDenom], pay)
+					dueFills[k.addr][mk.BankDenom]++
+				}
 			}
 		}
 	}
@@ -152,6 +170,18 @@ func (m *C03) OnStep(_ explore.Ghost, st *explore.Step) []V {
 			}
 			if nv.Cmp(v) > 0 && sellerDenom[a][d] {
 				m.inc("sellers_paid")
+			}
+		}
+	}
+	// a filled seller is paid in the order's ask denomination: each fill's payment is within one
+	// base unit of the exact value (C07), so whenever the exact amount owed exceeds the number of
+	// fills by at least one unit, the seller's balance in that denom must have grown
+	for a, byDen := range duePay {
+		for d, due := range byDen {
+			lower := ref.Sub(due, new(big.Rat).SetInt64(dueFills[a][d]))
+			if lower.Cmp(new(big.Rat).SetInt64(1)) >= 0 && st.Post.Coin(a, d).Cmp(st.Pre.Coin(a, d)) <= 0 {
+				out = append(out, V{Kind: "C03/filled-seller-not-paid-in-ask-denom",
+					Detail: fmt.Sprintf("%s is owed %s %s for its filled orders but its %s balance did not grow (%s -> %s) [%s]", a, due.FloatString(3), d, d, st.Pre.Coin(a, d), st.Post.Coin(a, d), st.Act.Label)})
 			}
 		}
 	}
